@@ -10,12 +10,12 @@ for f in sorted(glob.glob(os.path.join(ROOT, "mutants", "*"))):
     pid = "C" + re.match(r"c(\d+)", b).group(1)
     jobs.append((pid, "mutants/" + b, f))
 for f in sorted(glob.glob(os.path.join(ROOT, "seeded", "C*", "patch.diff"))):
-    pid = os.path.basename(os.path.dirname(f))
-    jobs.append((pid, "seeded/" + pid, f))
+    name = os.path.basename(os.path.dirname(f))
+    jobs.append((name[:3], "seeded/" + name, f))
 want = set(sys.argv[1:])
 rows = []
 for pid, name, path in jobs:
-    if want and pid not in want:
+    if want and pid not in want and name not in want:
         continue
     t0 = time.time()
     r = subprocess.run([os.path.join(ROOT, "tools", "mutcheck.sh"), pid, path], capture_output=True, text=True)
@@ -23,7 +23,7 @@ for pid, name, path in jobs:
     m = re.search(r"^  \[([^\]]+)\] (.*)$", out, re.M)
     pm = re.search(r"^  program: (.*)$", out, re.M)
     rc = re.search(r"mutcheck rc=(\d+)", out)
-    row = dict(property=pid, change=name, detected=(rc is not None and rc.group(1) == "1"),
+    row = dict(property=pid, change=name, detected=(rc is not None and rc.group(1) == "1" and m is not None),
                first_key=m.group(1) if m else None, message=m.group(2)[:160] if m else None,
                program=pm.group(1)[:160] if pm else None, wall_s=round(time.time() - t0, 1))
     rows.append(row)
